@@ -158,6 +158,11 @@ func (v *Val) build() interface{} {
 		if v.GoT == "MyBytes" {
 			return MyBytes(b)
 		}
+		if v.GoT == "[4]byte" {
+			var a [4]byte
+			copy(a[:], b)
+			return a
+		}
 		return b
 	case "sl":
 		switch v.GoT {
